@@ -260,6 +260,12 @@ def build_api_tx(rng, network='bitcoin', kinds=None, nin=None, nout=None, max_n=
             t.add_input(txid, n, keys=[pub(x) for x in ks], script_type=st, sigs_required=m, sequence=seq, value=val, witness_type=wt)
             ks_sorted = ks       # Transaction.add_input keeps the given key order (sorting is a wallet-level option)
             rs = ms_script(m, [k.public_byte for k in ks_sorted])
+            if rng.random() < 0.3:
+                # the caller hands over the script of the output being spent together with the keys (and leaves the threshold to the script):
+                # the input is the Input object built that way
+                from bitcoinlib.transactions import Input
+                t.inputs[-1] = Input(txid, n, keys=[pub(x) for x in ks], redeemscript=rs, script_type=st, sequence=seq, value=val, witness_type=wt,
+                                     index_n=len(t.inputs) - 1, network=network, **({} if rng.random() < 0.6 else {'sigs_required': m}))
             if kind == 'p2sh_ms':
                 spk = b'\xa9\x14' + _h160(rs) + b'\x87'
             elif kind == 'p2wsh_ms':
